@@ -266,6 +266,42 @@ add('C20','count-plus-node',CT,"func (ctx *Context) Count() int { return len(ctx
 add('C20','drop-clear-params',CT,"	clear(ctx.params)\n","",'violation:C20.R2')
 add('C20','benign-string-else',CT,"	if v, found := ctx.Get(key); found {\n		return v, nil\n	}\n	return \"\", ErrParamNotExists()","	v, found := ctx.Get(key)\n	if !found {\n		return \"\", ErrParamNotExists()\n	}\n	return v, nil",'silent')
 
+# ---------------- round 3
+IC='internal/syntax/interceptor.go'
+add('C01','word-shorthand-is-any',OP,"func WithWordInterceptor(rule string) Option { return WithInterceptor(syntax.MatchWord, rule) }","func WithWordInterceptor(rule string) Option { return WithInterceptor(syntax.MatchAny, rule) }",'violation:C01.R9')
+add('C02','digit-upper-bound-lost',IC,"		if c < '0' || c > '9' {","		if c < '0' {",'violation:C02.R9')
+add('C02','benign-digit-bounds-flipped',IC,"		if c < '0' || c > '9' {","		if '9' < c || '0' > c {",'silent')
+add('C02','index-needs-two-bytes',ND,"	if len(n.indexes) > 0 && len(ctx.Path) > 0 { // 普通字符串的匹配","	if len(n.indexes) > 0 && len(ctx.Path) > 1 { // 普通字符串的匹配",'violation:C02.R8')
+add('C02','benign-index-guard-neq',ND,"	if len(n.indexes) > 0 && len(ctx.Path) > 0 { // 普通字符串的匹配","	if len(n.indexes) != 0 && len(ctx.Path) != 0 { // 普通字符串的匹配",'silent')
+add('C03','index-kept-when-small',ND,"	if len(n.children) < indexesSize {\n		n.indexes = nil\n		return\n	}","	if len(n.children) < indexesSize {\n		return\n	}",'violation:C03.R2c')
+add('C05','segment-limit-uint16',SG,"	if len(val) > math.MaxInt16 {","	if len(val) > math.MaxUint16 {",'violation:C05.R9')
+add('C06','hosts-lock-ignored',MA,'	t := tree.New("host", lock, i, nil, false, f, f)','	t := tree.New("host", false, i, nil, false, f, f)','violation:C06.R5')
+add('C11','any-headers-reads-any-origins',OP,"func (c *cors) headerIsAllowed(r *http.Request) bool {\n	if c.anyHeaders {","func (c *cors) headerIsAllowed(r *http.Request) bool {\n	if c.anyOrigins {",'violation:C11.R7')
+add('C13','router-name-after-trace',TR,"	ctx.SetRouterName(tree.Name())\n\n	if tree.hasTrace && method == http.MethodTrace {\n		return tree.node, tree.trace, true\n	}\n","	if tree.hasTrace && method == http.MethodTrace {\n		return tree.node, tree.trace, true\n	}\n	ctx.SetRouterName(tree.Name())\n",'violation:C13.R7')
+add('C14','port-cut-at-first-colon',MA,"	if i := strings.LastIndexByte(h, ':'); i != -1 && validOptionalPort(h[i:]) {","	if i := strings.IndexByte(h, ':'); i != -1 && validOptionalPort(h[i:]) {",'violation:C14.R6')
+add('C16','recovery-nil-ignored',OP,"func WithRecovery(f RecoverFunc) Option { return func(o *options) { o.recoverFunc = f } }","func WithRecovery(f RecoverFunc) Option {\n	return func(o *options) {\n		if o.recoverFunc == nil {\n			o.recoverFunc = f\n		}\n	}\n}",'violation:C16.R8')
+add('C16','group-options-append-alias',GR,"	o = slices.Concat(g.options, o)","	o = append(g.options, o...)",'violation:C16.R7')
+add('C06','group-options-after-own',GR,"	o = slices.Concat(g.options, o)","	o = slices.Concat(o, g.options)",'violation:C06.R8')
+add('C18','trace-content-type-added',TC,"		w.Header().Set(header.ContentType, header.MessageHTTP)","		w.Header().Add(header.ContentType, header.MessageHTTP)",'violation:C18.R6')
+
+add('C17','ambiguous-ignores-type',SG,"		(seg.Endpoint == s2.Endpoint && seg.Type == s2.Type && seg.rule == s2.rule && seg.Suffix == s2.Suffix)\n}","		(seg.Endpoint == s2.Endpoint && seg.rule == s2.rule && seg.Suffix == s2.Suffix)\n}",'violation:C17.R6')
+add('C17','ambiguous-ignores-suffix-when-flag-differs',SG,"		return seg.Endpoint == s2.Endpoint && seg.Type == s2.Type && seg.rule == s2.rule && seg.Suffix == s2.Suffix\n","		return seg.Endpoint == s2.Endpoint && seg.Type == s2.Type && seg.rule == s2.rule\n",'violation:C17.R6')
+add('C17','benign-ambiguous-conjuncts-reordered',SG,"		return seg.Endpoint == s2.Endpoint && seg.Type == s2.Type && seg.rule == s2.rule && seg.Suffix == s2.Suffix\n","		return s2.Suffix == seg.Suffix && seg.rule == s2.rule && !(seg.Type != s2.Type) && seg.Endpoint == s2.Endpoint\n",'silent')
+
+add('C13','andfunc-builds-or',MA,"	return AndMatcher(f2i(f...)...)","	return OrMatcher(f2i(f...)...)",'violation:C13.R10')
+add('C13','or-accepts-on-rejection',MA,"			if ok := mm.Match(r, ctx); ok {\n				return true\n			}","			if ok := mm.Match(r, ctx); !ok {\n				return true\n			}",'violation:C13.R10')
+add('C13','and-ignores-rejection',MA,"			if !mm.Match(r, ctx) {\n				return false\n			}","			if !mm.Match(r, ctx) {\n				continue\n			}",'violation:C13.R10')
+add('C13','benign-and-verdict-local',MA,"			if !mm.Match(r, ctx) {\n				return false\n			}","			accepted := mm.Match(r, ctx)\n			if accepted {\n				continue\n			}\n			return false",'silent')
+
+add('C12','withcors-headers-swapped',OP,"			AllowHeaders:     allowHeaders,\n			ExposedHeaders:   exposedHeaders,","			AllowHeaders:     exposedHeaders,\n			ExposedHeaders:   allowHeaders,",'violation:C12.R10')
+add('C11','withcors-origins-from-headers',OP,"			Origins:          origin,","			Origins:          allowHeaders,",'violation:C11.R9')
+add('C11','denycors-allows-any',OP,"func WithDenyCORS() Option { return WithCORS(nil, nil, nil, 0, false) }","func WithDenyCORS() Option { return WithCORS([]string{\"*\"}, nil, nil, 0, false) }",'violation:C11.R9')
+add('C12','allowedcors-drops-maxage',OP,"	return WithCORS([]string{\"*\"}, []string{\"*\"}, nil, maxAge, false)","	return WithCORS([]string{\"*\"}, []string{\"*\"}, nil, 0, false)",'violation:C12.R10')
+
+add('C16','status-recovery-configures-nil',OP,"func WithStatusRecovery(status int) Option {\n	return WithRecovery(func(w http.ResponseWriter, msg any) {\n		http.Error(w, http.StatusText(status), status)\n	})\n}","func WithStatusRecovery(status int) Option {\n	var f RecoverFunc\n	if status < 0 {\n		f = func(w http.ResponseWriter, msg any) { http.Error(w, http.StatusText(status), status) }\n	}\n	return WithRecovery(f)\n}",'violation:C16.R9')
+add('C16','log-recovery-repanics',OP,"		l.Println(source.Stack(4, true, msg))\n","		l.Println(source.Stack(4, true, msg))\n		panic(msg)\n",'violation:C16.R9')
+add('C16','write-recovery-fixed-status',OP,"		http.Error(w, http.StatusText(status), status)\n		source.DumpStack(out, 4, true, msg)","		http.Error(w, http.StatusText(status), http.StatusInternalServerError)\n		source.DumpStack(out, 4, true, msg)",'violation:C16.R9')
+
 base=os.path.dirname(os.path.abspath(__file__))
 for pid,entries in C.items():
     os.makedirs(os.path.join(base,pid),exist_ok=True)
